@@ -307,3 +307,15 @@ CLAIMED['C38'] = dict(
          "DiGraphLivenessSSA and graphs with block-less destinations are outside the claim.",
     technique="bounded exhaustive exploration of small IR graphs enumerated by the SMT solver against path-search oracles",
     design_ref="DESIGN.md §3 C38")
+
+CLAIMED['C04'] = dict(
+    level='translation_validation', engine='llsym+refsem',
+    text="The C text of the real TranslatorC for ~1100 (quick) / ~3000 (thorough) expression shapes is wrapped as codegen.py does, "
+         "compiled by clang-14 to LLVM IR together with the current op_semantics.c/.h, and executed symbolically by vf/llsym.py "
+         "(path forking, LLVM poison semantics, runtime functions interpreted from their own IR); z3 proves for all operand values "
+         "with non-zero divisors: no undefined behaviour, no exit(), no write to stdout, result == reference value. Violations "
+         "are replayed natively under UBSan.",
+    note="Native widths (<= 64 bits) only: the big-number path (bn.c) is not encoded. Trusted: z3, clang-14 (stands for the C "
+         "compiler), vf/llsym.py, vf/refsem.py.",
+    technique="symbolic execution of the compiler's LLVM IR for the generated C + runtime, SMT equivalence with refsem per path",
+    design_ref="DESIGN.md §1.4, §3 C04")
